@@ -59,6 +59,16 @@ def shape_cat(s):
     return "struct" if k in ("struct", "root") else "inline" if k == "inline" else "coll"
 
 
+def shape_wcat(s):
+    """mirror of Shape.wcat (Sem/Alias.lean): the category a WRAPPER's row is looked up under — Tuple options apart"""
+    if isinstance(s, dict):
+        if "o" in s:
+            return shape_wcat(s["o"])
+        if s.get("c") == "tuple" or s.get("k") == "tuplePos":
+            return "tupl"
+    return shape_cat(s)
+
+
 def type_ok(d, v):
     """cheap 'could this option be the one that took the value' test (python type only)"""
     k = d["k"]
@@ -282,7 +292,7 @@ def fallback_shape(shape):
     first-fit choice, `(misfit, <category of the fixed option>)` with a fixed delegation"""
     if shape["pick"] == "first" or shape["pick"] >= len(shape["opts"]):
         return {"w": shape["wn"], "inner": "untyped"}
-    return {"w": "misfit", "inner": {"s": shape_cat(shape["opts"][shape["pick"]])}}
+    return {"w": "misfit", "inner": {"s": shape_wcat(shape["opts"][shape["pick"]])}}
 
 
 def site_chain_v(shape, v, path):
@@ -301,13 +311,13 @@ def site_chain_v(shape, v, path):
             i = py_pick(s, v)
             if i >= len(s["opts"]):
                 fb = fallback_shape(s)
-                chain.append((depth, fb["w"], shape_cat(fb["inner"])))
+                chain.append((depth, fb["w"], shape_wcat(fb["inner"])))
                 return chain
-            chain.append((depth, s["wn"], shape_cat(s["opts"][i])))
+            chain.append((depth, s["wn"], shape_wcat(s["opts"][i])))
             s = s["opts"][i]
             continue
         if "w" in s:
-            chain.append((depth, s["w"], shape_cat(s["inner"])))
+            chain.append((depth, s["w"], shape_wcat(s["inner"])))
             s = s["inner"]
             continue
         if "c" in s:
@@ -468,7 +478,7 @@ def site_chain(shape, path):
         if "s" in s:
             return chain
         if "w" in s:
-            chain.append((depth, s["w"], shape_cat(s["inner"])))
+            chain.append((depth, s["w"], shape_wcat(s["inner"])))
             s = s["inner"]
             continue
         if "c" in s:
@@ -1479,6 +1489,8 @@ def item_witness(cat):
         # (an undeclared key holding a container: kept by reference by the inline structure on its own)
         "inline": (dict(_cls("Inl", [["x", INT], ["l", ARR_INT]], addl=True), inline=True),
                    {"m": inner_doc["m"] + [["zz", {"l": [1]}]]}, {"m": inner_doc["m"] + [["zz", {"l": [1]}]]}),
+        # a Tuple option (its value is a tuple, an immutable container) with untyped content inside
+        "tupl": ({"k": "tuplePos", "items": [{"k": "seqAny"}, INT]}, {"t": [{"l": [1, {"l": [2]}]}, 2]}, {"l": [{"l": [1, {"l": [2]}]}, 2]}),
         # (untyped content inside: a wrapper that copies generically and one that hands the value on can be told apart)
         "wrap": ({"k": "anyOf", "fields": [STR, {"k": "seqAny"}]}, {"l": [1, {"l": [2]}]}, {"l": [1, {"l": [2]}]}),
     }[cat]
@@ -1556,7 +1568,7 @@ def witness(kind, cat):
 COLL_KINDS = ["array", "deque", "set", "immSet", "tuple", "map"]
 COLL_CATS = ["number", "string", "scalar", "any", "untyped", "coll", "struct", "inline", "wrap"]
 WRAP_KINDS = ["anyOf", "oneOf", "allOf", "notF"]
-WRAP_CATS = ["number", "string", "scalar", "any", "coll", "struct", "inline", "wrap"]
+WRAP_CATS = ["number", "string", "scalar", "any", "coll", "struct", "inline", "wrap", "tupl"]
 
 
 def field_sites():
